@@ -104,7 +104,7 @@ def U(n, **kw):
 U_TIMERS = [U(n) for n in ["u_poll_interrupt_timer", "u_poll_disconnect_timer", "u_poll_both_in_order",
             "u_poll_interrupt_payload_default", "u_poll_interrupt_payload_zero", "u_poll_interrupt_payload_saturating", "u_poll_interrupt_payload_one"]]
 U_LIVENESS = [U(n) for n in ["u_foreign_magic_ignored", "u_liveness_and_resume"]]
-U_MALFORMED = [U(n) for n in ["u_input_wrong_status_count_dropped", "u_input_negative_start_dropped"]] + [U("u_on_input_wrong_size_first_of_two", timeout=1800, mem=14), U("u_on_input_wrong_size_second_of_two", tier="thorough", timeout=3000, mem=30)]
+U_MALFORMED = [U(n) for n in ["u_input_wrong_status_count_dropped", "u_input_negative_start_dropped"]] + [U("u_on_input_wrong_size_first_of_two", timeout=1800, mem=14)]  # (u_on_input_wrong_size_second_of_two: > 19 GB after 200 s of solving, not registered)
 U_LOSTACK = [U(n) for n in names_in("network__protocol@b.rs", "u_lost_ack_reply_.*")]
 U_STREAM_Q = [U(n, timeout=600, mem=14) for n in names_in("network__protocol@b.rs", "u_on_input_stream_.*_k1")] + \
              [U("u_on_input_stream_l5_s7_k2"), U("u_input_ack_content", timeout=600, mem=10),
